@@ -49,7 +49,7 @@ Definition unlocks_of (log : list ev) : list N := flat_map (fun e => match e wit
 Definition probe_all (c : cfg) (s : sys) : sys :=
   fold_left (fun s id =>
                match step c (LProbeBegin id true true false false) s with
-               | Some s1 => match step c (LProbeEnd id) s1 with Some s2 => s2 | None => s1 end
+               | Some s1 => match step c (LProbeEnd id) s1 with Some s2 => s2 | None => s end
                | None => s
                end) (map w_id (p_workers (spool s))) s.
 
@@ -177,17 +177,17 @@ Definition apply_fop (c : cfg) (quantum : Z) (f : fop) (l : lsys) : lsys :=
       end
   | FProbe id =>
       match step c (LProbeBegin id true true false false) s with
-      | Some s1 => with_sys l (match step c (LProbeEnd id) s1 with Some s2 => Some s2 | None => Some s1 end)
+      | Some s1 => with_sys l (step c (LProbeEnd id) s1)   (* a probe excluded by assumption A3 does not happen *)
       | None => l
       end
   | FProbeDown id =>
       match step c (LProbeBegin id false false false false) s with
-      | Some s1 => with_sys l (match step c (LProbeEnd id) s1 with Some s2 => Some s2 | None => Some s1 end)
+      | Some s1 => with_sys l (step c (LProbeEnd id) s1)   (* a probe excluded by assumption A3 does not happen *)
       | None => l
       end
   | FProbeBroken id =>
       match step c (LProbeBegin id true true true false) s with
-      | Some s1 => with_sys l (match step c (LProbeEnd id) s1 with Some s2 => Some s2 | None => Some s1 end)
+      | Some s1 => with_sys l (step c (LProbeEnd id) s1)   (* a probe excluded by assumption A3 does not happen *)
       | None => l
       end
   | FLand ok =>
